@@ -117,6 +117,8 @@ pub mod transaction;
 pub mod tree;
 pub mod tree_builder;
 pub mod union_find;
+#[cfg(feature = "verif-hooks")]
+pub mod verif_hooks;
 pub mod view;
 pub mod working_copy;
 pub mod workspace;
